@@ -514,30 +514,36 @@ def rcvPrepareRemoval (w : World) (me : Pid) (slot : Nat) : World :=
           else rcvPushTbr (rcvMakeRoom w me R hasBorrows) me key hasBorrows
         else rcvDropConn w me key
 
+/-- `create_receiver`: the receiver side attaches to the connection (creating it when it does not exist yet) -/
+def rcvAttach (w : World) (me f : Pid) (n : Nat) (R : Rcv) : World :=
+  match getConn w f me with
+  | some c => setConn w f me { c with rAtt := true }
+  | none => setConn w f me { newConn R.cap R.overflow R.maxBorrow R.nChan n R.init with rAtt := true }
+
 /-- `Receiver::create` (`Connection::new`: `create_receiver`); `n` = the sender's number of chunks -/
 def rcvCreateConn (w : World) (me : Pid) (slot : Nat) (f : Pid) (n : Nat) : World :=
   match getRcv w me with
   | none => w
   | some R =>
-    let w := match getConn w f me with
-      | some c => setConn w f me { c with rAtt := true }
-      | none => setConn w f me { newConn R.cap R.overflow R.maxBorrow R.nChan n R.init with rAtt := true }
+    let w := rcvAttach w me f n R
     match smInsert R.storage f with
     | (m, some key) => setRcv w me { R with storage := m, conns := R.conns.set slot (some key) }
     | (_, none) => { w with panicked := true }
+
+/-- `update_connection`: the key of the connection in `slot` when it leads to sender `f` -/
+def rcvConnected (R : Rcv) (slot : Nat) (f : Pid) : Option Nat :=
+  match R.conns.getD slot none with
+  | none => none
+  | some key => match smGet R.storage key with
+    | some f' => if f' = f then some key else none
+    | none => none
 
 /-- `Receiver::update_connection`; returns the world and the tagged key -/
 def rcvUpdateConn (w : World) (me : Pid) (slot : Nat) (f : Pid) (n : Nat) : World × Option Nat :=
   match getRcv w me with
   | none => (w, none)
   | some R =>
-    let connected :=
-      match R.conns.getD slot none with
-      | none => none
-      | some key => match smGet R.storage key with
-        | some f' => if f' = f then some key else none
-        | none => none
-    match connected with
+    match rcvConnected R slot f with
     | some key => (w, some key)
     | none =>
       let w := rcvCreateConn (rcvPrepareRemoval w me slot) me slot f n
@@ -592,6 +598,9 @@ def connBorrow (w : World) (me f : Pid) (ch : Nat) : Nat × Nat :=
   | some c => ((match c.chan ch with | some x => x.borrow | none => 0), c.maxBorrow)
   | none => (0, 0)
 
+def connHasBorrows (w : World) (me : Pid) (R : Rcv) (key : Nat) : Bool :=
+  match connFlags w me R key with | some (_, b) => b | none => false
+
 /-- `receive_from_to_be_removed_connections`.  `i` = absolute scan position. -/
 def recvTbr (w : World) (me : Pid) (ch : Nat) : Nat → Nat → World × RecvRes
   | 0, _ => (w, .none)
@@ -612,8 +621,7 @@ def recvTbr (w : World) (me : Pid) (ch : Nat) : Nat → Nat → World × RecvRes
             | (w', .some h m) => (w', .some h m)
             | (w', .maxBorrow) => (w', .maxBorrow)
             | (w', .none) =>
-              let hasBorrows := match connFlags w' me R key with | some (_, b) => b | none => false
-              if hasBorrows then recvTbr w' me ch fuel (i + 1)
+              if connHasBorrows w' me R key then recvTbr w' me ch fuel (i + 1)
               else
                 let w' := setRcv w' me { R with tbr := R.tbr.eraseIdx i }
                 recvTbr (rcvDropConn w' me key) me ch fuel i
